@@ -354,6 +354,8 @@ class AioConn:
             self.sent_after_close += len(data)
 
     def eof(self) -> None:
+        if not getattr(self, "client_eof", False):
+            self.rx_at_client_eof = len(self.rx)
         self.client_eof = True
         self.log.add("ceof", conn=self.cid)
         self.transport.feed_eof()
@@ -387,6 +389,12 @@ class AioConn:
 
     def received(self) -> bytes:
         return bytes(self.rx)
+
+    def received_before_eof(self) -> bytes:
+        """What the server had sent when the client half-closed: a response is owed without the
+        client hanging up, so this is what response oracles look at."""
+        n = getattr(self, "rx_at_client_eof", None)
+        return bytes(self.rx if n is None else self.rx[:n])
 
 
 class AioEnv:
